@@ -199,6 +199,19 @@ func (r FileReplacer) Replace(d data.Data, cl Changelog) (*ast.File, error) {
 		}
 	}
 
+	// go/printer prints the operand of "*" as it is: where a replacement put
+	// a binary expression there, the grouping has to be made explicit or
+	// "*(a + b)" comes out as "*a + b". (The parser never leaves a binary
+	// expression there without its parentheses.)
+	ast.Inspect(file, func(n ast.Node) bool {
+		if star, ok := n.(*ast.StarExpr); ok {
+			if x, ok := star.X.(*ast.BinaryExpr); ok {
+				star.X = &ast.ParenExpr{Lparen: x.Pos(), X: x, Rparen: x.End()}
+			}
+		}
+		return true
+	})
+
 	// Imports are added only after the matched nodes have been replaced:
 	// adding the first import of a file inserts a declaration at the front
 	// of file.Decls, which would invalidate the index recorded for a matched
